@@ -18,6 +18,7 @@ import (
 	"strconv"
 	"strings"
 	"sync/atomic"
+	"syscall"
 	"testing"
 	"time"
 
@@ -234,17 +235,48 @@ func New(t *testing.T, prop, level, rule string, assumptions ...string) *H {
 // recorded violation and ends the process (exit code 3): a wedged case cannot
 // be interrupted from inside.
 func (h *H) watchdog() {
+	// samples of (wall clock, CPU time of this process): on an overloaded
+	// machine a call can be open for a long time without having run for long,
+	// which is slowness of the machine, not a hang of the library
+	type sample struct {
+		at  time.Time
+		cpu time.Duration
+	}
+	var ring []sample
+	cpuSince := func(start time.Time, now time.Duration) time.Duration {
+		for _, s := range ring {
+			if !s.at.Before(start) {
+				return now - s.cpu
+			}
+		}
+		return 0
+	}
 	for {
 		time.Sleep(500 * time.Millisecond)
+		cpuNow := processCPU()
+		ring = append(ring, sample{time.Now(), cpuNow})
+		if len(ring) > 8000 {
+			ring = ring[len(ring)-6000:]
+		}
 		cc := h.cur.Load()
 		if cc == nil || h.slow[cc.campaign] {
 			continue
 		}
 		// a hang is one call into the library that does not return within the
 		// limit; a case that makes many calls (permutations, repeats) may take
-		// longer as a whole, within a generous bound
+		// longer as a whole, within a generous bound. Both limits count only
+		// when the process really had that much CPU time meanwhile (an endless
+		// loop burns it), or when five times the wall-clock limit has passed
+		// (a call blocked for good burns none).
 		limit := time.Duration(h.hangS) * time.Second
-		if OldestCall() < limit && time.Since(cc.start) < 20*limit {
+		now := time.Now()
+		over := func(age, lim time.Duration) bool {
+			if age < lim {
+				return false
+			}
+			return age >= 5*lim || cpuSince(now.Add(-age), cpuNow) >= lim*8/10
+		}
+		if !over(OldestCall(), limit) && !over(time.Since(cc.start), 20*limit) {
 			continue
 		}
 		f := &Failure{Key: "hang", Msg: fmt.Sprintf("case did not finish within %d s", h.hangS)}
@@ -256,6 +288,15 @@ func (h *H) watchdog() {
 		h.finish()
 		os.Exit(3)
 	}
+}
+
+// processCPU returns the CPU time (user + system) this process has used.
+func processCPU() time.Duration {
+	var ru syscall.Rusage
+	if err := syscall.Getrusage(syscall.RUSAGE_SELF, &ru); err != nil {
+		return 0
+	}
+	return time.Duration(ru.Utime.Nano() + ru.Stime.Nano())
 }
 
 // SlowCampaign exempts a campaign from the hang watchdog (its single case runs
